@@ -24,7 +24,7 @@ PIDS = ["p.a", "p.b"]
 
 
 def examples(tier):
-    return 4000 if tier == "quick" else 20000
+    return 4000 if tier == "quick" else 150000
 
 
 def _store(apool, insts):
